@@ -892,6 +892,124 @@ func nestedLoops(c *Ctx) {
 	}
 }
 
+// ---------------------------------------------------------------- user-function calls: the memo cache key path
+// applyFunction puts (function text, arguments) into a Go map key when object.Hashable says so; a value of a Go type
+// that cannot be hashed (BigArray holds a slice, Function holds slices, *BigMap ...) must never get there, at any depth of
+// nesting, as element, map value or map KEY.  Every argument shape is passed to functions of 1..4 parameters, twice
+// (Set then Get), also through a variable and from inside another function.
+func cacheElems() []kv {
+	return []kv{{"int", "7"}, {"float", "2.5"}, {"nan", "NaN"}, {"inf", "Inf"}, {"negzero", "(-0.0)"}, {"str", `"s"`}, {"nil", "nil"}, {"bool", "true"},
+		{"arr-small", "[1,2]"}, {"arr-8", "[1,2,3,4,5,6,7,8]"}, {"arr-big", "[1,2,3,4,5,6,7,8,9]"}, {"arr-range", "(0:12)"},
+		{"map-small", `{"a":1}`}, {"map-4", "{1:1,2:2,3:3,4:4}"}, {"map-big", "{1:1,2:2,3:3,4:4,5:5}"},
+		{"func", "func(x){x}"}, {"lambda", "(x=>x)"}, {"named-func", "cfid"}, {"ext", "sin"}, {"quote", "quote(1+q)"},
+		{"arr-of-big", "[[1,2,3,4,5,6,7,8,9]]"}, {"map-bigkey", "{[1,2,3,4,5,6,7,8,9]:1}"}, {"map-funckey", "{(x=>x):1}"}}
+}
+
+func cacheShapes(e string) []kv {
+	return []kv{{"direct", e}, {"arr1", "[" + e + "]"}, {"arr2", "[1," + e + "]"}, {"arr-nested", "[[" + e + "]]"},
+		{"map-key", "{" + e + ":1}"}, {"map-value", "{1:" + e + "}"}, {"map-key2", "{\"a\":1," + e + ":2}"}, {"map-both", "{" + e + ":" + e + "}"},
+		{"arr-map-key", "[{" + e + ":1}]"}, {"arr-map-value", "[{1:" + e + "}]"}, {"map-map-key", "{1:{" + e + ":2}}"}, {"map-arr-value", "{1:[" + e + "]}"},
+		{"map-key-arr", "{[" + e + "]:1}"}, {"map-key-map", "{{" + e + ":1}:2}"}, {"arr9", "[0,1,2,3,4,5,6,7," + e + "]"},
+		{"map5-key", "{1:1,2:2,3:3,4:4," + e + ":5}"}}
+}
+
+const cachePrelude = "func cfid(x){x}; func cf1(a){len(a)}; func cf2(a,b){[a,b]}; func cf3(a,b,c){first(a)}; func cf4(a,b,c,d){d}; func cf5(a,b,c,d,e){e}; " +
+	"cl1 = a => a; q = 1; "
+
+func cacheArgs(c *Ctx) {
+	o := evalOpts{maxDepth: 200, dur: 40 * time.Millisecond}
+	for _, e := range cacheElems() {
+		for _, sh := range cacheShapes(e.src) {
+			x := sh.src
+			calls := []string{
+				"cf1(" + x + "); cf1(" + x + ")",
+				"cl1(" + x + "); cl1(" + x + ")",
+				"cf2(1," + x + "); cf2(1," + x + ")",
+				"cf3(" + x + ",2," + x + "); cf3(" + x + ",2," + x + ")",
+				"cf4(1,2,3," + x + "); cf4(1,2,3," + x + ")",
+				"cf5(1,2,3,4," + x + ")",
+				"v = " + x + "; cf1(v); cf1(v); cf2(v, v)",
+				"v = " + x + "; func outer(){ cf1(v) }; outer(); outer()",
+				"func outer(p){ cf1(p); cf2(p, [p]) }; outer(" + x + "); outer(" + x + ")",
+				"cfid(" + x + ") == cfid(" + x + ")",
+			}
+			for ci, call := range calls {
+				if !c.Thorough() && ci > 1 && c.R.Pct(55) {
+					continue
+				}
+				check(c, "cachearg:"+sh.kind, cachePrelude+call, o)
+			}
+		}
+	}
+}
+
+// ---------------------------------------------------------------- register file pressure
+// Integer parameters and running named counted loops each hold one of the NumRegisters (8) registers of the function's
+// environment; the 9th must fall back to a variable.  Functions with 0..10 integer parameters x 0..10 nested named loops,
+// at top level, in functions and in lambdas, with the innermost body reading every parameter and loop variable.
+var regVars = []string{"i", "j", "k", "l", "m", "o", "p", "u", "v", "w"}
+var regParams = []string{"a", "b", "c", "d", "e", "g", "h", "y", "z", "t"}
+
+func regProgram(np, nl int, inner string, nonRewritableAt int) string {
+	var sum []string
+	sum = append(sum, "r")
+	sum = append(sum, regParams[:np]...)
+	sum = append(sum, regVars[:nl]...)
+	body := "r = " + strings.Join(sum, " + ")
+	if inner != "" {
+		body += "; " + inner
+	}
+	for d := nl - 1; d >= 0; d-- {
+		extra := ""
+		if d == nonRewritableAt {
+			extra = "; " + regVars[d] + "++" // this level cannot use a register
+		}
+		body = "for " + regVars[d] + " = 2 { " + body + extra + " }"
+	}
+	return "r = 0; " + body + "; r"
+}
+
+func registerPressure(c *Ctx) {
+	o := evalOpts{maxDepth: 200, dur: 80 * time.Millisecond}
+	ones := func(n int) string { return strings.TrimSuffix(strings.Repeat("1,", n), ",") }
+	for np := 0; np <= 10; np++ {
+		for nl := 0; nl <= 10; nl++ {
+			if np+nl < 6 && !c.Thorough() {
+				continue
+			}
+			for _, nr := range []int{-1, 0, nl / 2, nl - 1} {
+				if nr >= nl || (nr >= 0 && nl == 0) {
+					continue
+				}
+				prog := regProgram(np, nl, "", nr)
+				params := strings.Join(regParams[:np], ",")
+				check(c, "regs:func", "func rf("+params+"){ "+prog+" }; rf("+ones(np)+"); rf("+ones(np)+")", o)
+				check(c, "regs:lambda", "rl = ("+params+") => { "+prog+" }; rl("+ones(np)+")", o)
+				if np == 0 {
+					check(c, "regs:top", prog, o)
+					check(c, "regs:top", prog+"; "+prog, o)
+				}
+				if nr == -1 {
+					// a callee with its own parameters and loops inside the innermost body, and a nested function literal
+					check(c, "regs:call", "func inner(a,b,c){ r2 = 0; for i = 2 { for j = 2 { r2 = r2 + a + b + c + i + j } }; r2 }; func rf("+params+"){ "+
+						regProgram(np, nl, "inner(1,2,3)", -1)+" }; rf("+ones(np)+")", o)
+				}
+			}
+		}
+	}
+	// mixed parameter kinds (only integers take registers), variadic, recursion with loops
+	for _, src := range []string{
+		`func rf(a,b,c,d,e,g,h,y){ r=0; for i=3 { r=r+a+b+c+d+e+g+h+y+i }; r }; rf(1,1,1,1,1,1,1,1)`,
+		`func rf(a,b,c,d,e,g,h,y){ r=0; for i=3 { r=r+a+i }; r }; rf(1,"s",2.5,[1],nil,true,{1:2},8)`,
+		`func rf(a,b,c,d,e,g){ r=0; for i=2 { for j=2 { for k=2 { r=r+a+b+c+d+e+g+i+j+k } } }; r }; rf(1,1,1,1,1,1)`,
+		`r=0; for i=2 {for j=2 {for k=2 {for l=2 {for m=2 {for o=2 {for p=2 {for u=2 {for v=2 { r=r+i+j+k+l+m+o+p+u+v }}}}}}}}}; r`,
+		`func rf(n,a,b,c,d,e,g){ if n<=0 {return 0}; r=0; for i=2 { for j=2 { r=r+rf(n-1,a,b,c,d,e,g)+i+j } }; r }; rf(2,1,1,1,1,1,1)`,
+		`func rf(a,b,c,d,e,g,h,..){ r=0; for i=2 { for j=2 { r=r+a+h+i+j+len(..) } }; r }; rf(1,1,1,1,1,1,1,9,9)`,
+	} {
+		check(c, "regs:corpus", src, o)
+	}
+}
+
 // ---------------------------------------------------------------- wild grammar-generated programs
 type wild struct {
 	c     *Ctx
@@ -1266,7 +1384,13 @@ func runC07(c *Ctx) {
 		// register stack: a rewritable counted loop around one whose body cannot be rewritten (seeded regression 1)
 		"for i = 3 { for j = 2 { j++ } }", "for i = 3 { for j = 2 { --j } }", "for i = 3 { for j = 2 { j(1) } }",
 		"for i = 3 { for j = 2 { j = 5 } }", "for i = 3 { for j = 2 { f = func(){j} } }", "func lf(){ for i = 3 { for j = 2 { j++ } } }; lf()",
-		"for i = 3 { for j = 2 { for k = 2 { k++ } } }", "for i = 3 { for j = 2 { j++; break } }; for i = 2 { i }"}
+		"for i = 3 { for j = 2 { for k = 2 { k++ } } }", "for i = 3 { for j = 2 { j++; break } }; for i = 2 { i }",
+		// memo cache key: a small map whose KEY Go cannot hash (seeded regression 2A)
+		"func f(m){len(m)}; f({[1,2,3,4,5,6,7,8,9]:1})", "func f(m){len(m)}; f({(x=>x):1})", "func f(a){len(a)}; f([{[1,2,3,4,5,6,7,8,9]:1}])",
+		"func f(a){len(a)}; f({1:{[1,2,3,4,5,6,7,8,9]:1}})",
+		// a ninth simultaneous register (seeded regression 2B)
+		"func l8(a,b,c,d,e,g,h,k){r=0; for i=3{r=r+a+b+c+d+e+g+h+k+i}; r}; l8(1,1,1,1,1,1,1,1)",
+		"r=0; for i=2 {for j=2 {for k=2 {for l=2 {for m=2 {for o=2 {for p=2 {for u=2 {for v=2 { r=r+i+v }}}}}}}}}; r"}
 	for _, s := range corpus {
 		check(c, "corpus", s, std)
 		evalOneAgrees(c, s)
@@ -1424,6 +1548,10 @@ func runC07(c *Ctx) {
 
 	// 3b. nested counted loops with rewritable and non-rewritable bodies (register stack balance)
 	nestedLoops(c)
+
+	// 3c. memo cache key path for every argument shape; 3d. register file pressure
+	cacheArgs(c)
+	registerPressure(c)
 
 	// 4. builtin / extension sweep
 	sweep(c)
